@@ -86,18 +86,46 @@ HANDLERS = {'count': make_counter()}
 
 def dispatch(name, arg):
     return HANDLERS[name](arg)
+
+
+import functools  # noqa: E402
+
+
+class CountCalls:
+    """a class-based decorator: the module-level name is bound to an object that is not a function but carries __wrapped__"""
+
+    def __init__(self, f):
+        functools.update_wrapper(self, f)
+        self.f = f
+        self.n = 0
+
+    def __call__(self, *a, **k):
+        self.n += 1
+        return self.f(*a, **k)
+
+
+@CountCalls
+def counted(a):
+    return [a]
+
+
+@functools.lru_cache(maxsize=None)
+def cached_fn(a):
+    return {'c': a}
 '''
 CALLS = {
     "f0": "M.f0(1)", "f1": "M.f1('s')", "f2": "M.f2({'a': 1, 'b': 2, 'c': 3})", "f3": "M.f3(4)", "K.m0": "M.K().m0(1)", "K.s0": "M.K.s0({'u': 1, 'v': 's'})",
     "K.c0": "list(M.K.c0(1))", "g0": "list(M.g0(2))", "late": "M.late(1)", "pipeline": "M.pipeline(1)",
     "hidden": "M.hidden(1)", "K2.hm": "M.K2().hm('s')", "dispatch": "M.dispatch('count', 2)",
+    "counted": "M.counted(1)", "cached_fn": "(M.cached_fn.cache_clear(), M.cached_fn(1))",
 }
 LAMBDA = "pipeline.<locals>.<lambda>"
 WRAPPER = "plain_deco.<locals>.w"
 HIDDEN, HM, COUNT = "hidden", "K2.hm", "make_counter.<locals>.count"
 # what runs (beyond the called name itself) when a CALLS entry is evaluated; "hidden" / "K2.hm" name the wrapper at module level, the
 # decorated function keeps its own qualified name
-ALSO_RUNS = {"pipeline": [LAMBDA], "hidden": [WRAPPER, "hidden:inner"], "K2.hm": [WRAPPER, "K2.hm:inner"], "dispatch": [COUNT]}
+ALSO_RUNS = {"pipeline": [LAMBDA], "hidden": [WRAPPER, "hidden:inner"], "K2.hm": [WRAPPER, "K2.hm:inner"], "dispatch": [COUNT],
+             "counted": ["CountCalls.__call__:code", "counted:inner"], "cached_fn": ["cached_fn:inner"]}
 KS = [10, 3, 0, 2, 1, 0, 3, 10, 2]
 
 
@@ -175,10 +203,12 @@ def work(p):
 
         lam_code = next(c for c in M.pipeline.__code__.co_consts if hasattr(c, "co_code"))
         special = {LAMBDA: lam_code, WRAPPER: M.hidden.__code__, "hidden:inner": M.hidden.__closure__[0].cell_contents.__code__,
-                   "K2.hm:inner": M.K2.__dict__["hm"].__closure__[0].cell_contents.__code__, COUNT: M.HANDLERS["count"].__code__}
+                   "K2.hm:inner": M.K2.__dict__["hm"].__closure__[0].cell_contents.__code__, COUNT: M.HANDLERS["count"].__code__,
+                   "CountCalls.__call__:code": M.CountCalls.__call__.__code__, "counted:inner": M.counted.f.__code__, "cached_fn:inner": M.cached_fn.__wrapped__.__code__}
         # qualified name under which a trace of that code is logged
-        logged_as = {LAMBDA: LAMBDA, WRAPPER: WRAPPER, "hidden:inner": "hidden", "K2.hm:inner": "K2.hm", COUNT: COUNT}
-        plain = [q for q in quals if q not in ("hidden", "K2.hm")]  # (these two names are bound to the wrapper)
+        logged_as = {LAMBDA: LAMBDA, WRAPPER: WRAPPER, "hidden:inner": "hidden", "K2.hm:inner": "K2.hm", COUNT: COUNT,
+                     "CountCalls.__call__:code": "CountCalls.__call__", "counted:inner": "counted", "cached_fn:inner": "cached_fn"}
+        plain = [q for q in quals if q not in ("hidden", "K2.hm", "counted", "cached_fn")]  # (these names are bound to wrappers)
         for mode in case["modes"]:
             lg = L()
             cfg = Cfg(lg)
@@ -275,6 +305,8 @@ def work(p):
                         res17.count("function_behind_plain_closure_decorator_judgements")
                     if COUNT in want:
                         res17.count("self_referential_nested_function_judgements")
+                    if "counted" in want or "cached_fn" in want:
+                        res17.count("function_behind_a_non_function_wrapper_judgements")
                 else:
                     res18.count("session_blocks_sampled")
                     extra = sorted(set(gotq) - set(want))
